@@ -514,6 +514,7 @@ func cmdCheck(args []string) {
 			"mode R (two-run): the unary contracts (loop invariants, callee postconditions) of the functions are imported as assumptions in both runs; they are discharged by the checks of C01/C02/C16 (only clauses tagged with those or untagged are imported)",
 			"mode R: strings are related at equal offsets (a string value is an (array, offset, length) triple and no operation observes the offset)",
 			"mode R: auxiliary lock-step lemmas (both runs reach a block under the same condition; partner library searches find matches at the same indices) are proved on the spot by the solvers from the assumptions made so far and only then used; an unproved lemma is not assumed",
+			"scope of the two-run theorem (contract file, specs relInput / dollarFixed / spFixed / cdataFixed): C10 - inputs of equal length, equal up to ASCII case, identical at letters following a backslash or a single quote or preceding a single quote, identical altogether if '$' occurs, identical on the letters of case-variants of sp_password; C11 - equal up to ASCII case and identical on the letters of case-variants of [CDATA[; the NUL-insertion half of C11 is not covered",
 			"mode R: recursion and loops: the relational contract of a callee / the relation at a loop head is used inductively (partial correctness; termination is C01/C02)",
 		)
 	}
